@@ -163,6 +163,8 @@ pub fn site_class(site: u64) -> &'static str {
         // Prove
         60 | 61 | 65 => "add-overflow",
         64 | 71 => "sub-overflow",
+        // Filter, the cache update of BlockFilterHashesProcess (305..=309 are index / slice sites)
+        310..=318 => "sub-overflow",
         _ => "unknown-site",
     }
 }
